@@ -678,3 +678,8 @@ mod tests {
 pub use diagonal::DiagMassMatrix as VerifDiagMassMatrix;
 #[cfg(nuts_rs_verif)]
 pub use low_rank::LowRankMassMatrix as VerifLowRankMassMatrix;
+#[cfg(nuts_rs_verif)]
+pub use adapt::{
+    DiagAdaptStrategy as VerifDiagAdaptStrategy, MassMatrixAdaptStrategy as VerifMassMatrixAdaptStrategy,
+    VerifDrawGradCollector,
+};
